@@ -24,7 +24,8 @@ import (
 
 // Spec identifies one scenario completely (together with the tree under test).
 type Spec struct {
-	Kind    string `json:"kind"` // replay | live | race | cut | stall
+	Kind    string `json:"kind"` // replay | live | race | cut | stall | mid
+	Second  bool   `json:"second,omitempty"` // cut: a second, fully logged-in operator is reset at the same moment
 	Seed    int64  `json:"seed"`
 	HistLen int    `json:"hist_len,omitempty"`
 	PerSrc  int    `json:"per_source,omitempty"`
@@ -37,7 +38,7 @@ type Spec struct {
 }
 
 func (s Spec) key() string {
-	return fmt.Sprintf("%s/%d/%s/%d/%d/%d", s.Kind, s.Rec, s.Where, s.Extra/512, s.HistLen, s.PerSrc)
+	return fmt.Sprintf("%s/%d/%s/%d/%d/%d/%v", s.Kind, s.Rec, s.Where, s.Extra/512, s.HistLen, s.PerSrc, s.Second)
 }
 
 type outcome struct {
@@ -730,7 +731,7 @@ func (t *traffic) watch(bound time.Duration, stop <-chan struct{}) {
 			d2 := analyseDump(t.w.ts)
 			if len(d2.Holders) == 0 && sameIDs(d.Waiters, d2.Waiters) && t.progress.Load() == last {
 				t.fail(finding{Sig: "wedge:send-blocked-on-client-mutex-nobody-holds",
-					What: "after an operator connection was cut, broadcasts / agent requests never complete: goroutines wait in SendEvent for the dead client's mutex, which the writer whose WriteMessage failed never released",
+					What: "after an operator connection was cut, broadcasts / agent requests never complete: goroutines wait for a client's write mutex that no goroutine past the Lock in SendEvent is going to release (left locked after a failed write, or its holder waits for a mutex itself)",
 					Det:  map[string]any{"waiters": len(d2.Waiters), "stacks": d2.trimmed()}})
 				return
 			}
@@ -1021,6 +1022,34 @@ func (e *engine) scenCut(sp Spec) (o outcome) {
 	defer hookPauseNs.Store(0)
 	pauses0 := hookPauses.Load()
 
+	// second casualty (Spec.Second): another operator, fully logged in, whose connection is
+	// reset at the same moment, so that the broadcast which meets the first dead client also
+	// meets a second one (failure handling of one client running into another's)
+	var v2 *victim
+	if sp.Second {
+		px2, err := faultproxy.New(w.addr)
+		if err != nil {
+			o.incon = append(o.incon, "proxy: "+err.Error())
+			return
+		}
+		defer px2.Close()
+		v2 = w.dialVictim(px2)
+		if v2.cl == nil {
+			o.incon = append(o.incon, "second victim could not connect")
+			return
+		}
+		if ok, err := v2.cl.Login(v2.name, "pw-"+v2.name, syncWait); err != nil || !ok {
+			syncFailure(&o, &syncErr{fmt.Sprintf("second victim login: ok=%v err=%v", ok, err)}, w)
+			return
+		}
+		tok2 := fmt.Sprintf("v2mark%dz", n)
+		oneShotChat(v2.cl, "MARK "+tok2)
+		if _, ok := v2.cl.WaitFor(func(f opclient.Frame) bool { return strings.Contains(string(f.Raw), tok2) }, syncWait); !ok {
+			syncFailure(&o, &syncErr{"second victim's end-of-replay marker not echoed"}, w)
+			return
+		}
+	}
+
 	v := w.dialVictim(px)
 	replayDone := make(chan struct{})
 	go func() {
@@ -1062,12 +1091,23 @@ wait:
 	if len(ags) > 2 {
 		ags = ags[:2]
 	}
+	if v2 != nil {
+		if !px.WasCut() {
+			px.CutNow()
+			stage = "live-cutnow"
+		}
+		v2.px.CutNow()
+		e.c.Observe("two_operators_cut_together", 1)
+	}
 	tr, expect := w.faultTraffic([]int{0, 1}, ags, true, px.WasCut, 4, 40, confirmBound, 300)
 	if !px.WasCut() {
 		px.CutNow()
 		stage = "live-cutnow"
 	}
 	o.class = fmt.Sprintf("cut:%s:%s", sp.Where, stage)
+	if v2 != nil {
+		o.class += ":second"
+	}
 	e.c.Observe("cut_stage:"+stage, 1)
 	e.c.Observe("hook_pauses_below_RemoveClient", hookPauses.Load()-pauses0)
 	o.info = map[string]any{"n": n, "stage": stage, "down": px.Down.Load(), "victim_frames": func() int {
@@ -1096,6 +1136,15 @@ wait:
 	if err := w.waitGone(v.id); err != nil {
 		syncFailure(&o, err, w)
 		return
+	}
+	if v2 != nil {
+		if err := w.waitGone(v2.id); err != nil {
+			syncFailure(&o, err, w)
+			return
+		}
+		if v2.sc != nil && observe.TryLocked(&v2.sc.Mutex, 2*time.Second) && len(analyseDump(w.ts).Holders) == 0 {
+			o.add(lockLeftFinding(v2))
+		}
 	}
 	e.afterFault(&o, w, v, from, expect, []int{0, 1, 2})
 	return
